@@ -281,6 +281,7 @@ def mentions (p : Nat) : Nat → List Node → Bool
   | _ + 1, [] => false
   | f + 1, .defer q _ :: r => q == p || mentions p f r
   | f + 1, .cycle q _ _ :: r => q == p || mentions p f r
+  | f + 1, .op q _ _ _ :: r => q == p || mentions p f r
   | f + 1, .loop _ _ _ body :: r => mentions p f body || mentions p f r
   | f + 1, _ :: r => mentions p f r
 
@@ -342,6 +343,10 @@ theorem aux_direct_not_mentioned (p : Nat) (f d : Nat) (body : List Node) (env :
         rcases hx with rfl | hx
         · exact hm.1
         · exact ih _ _ _ _ hrun hm.2 x hx
+      | op q kd st t =>
+        simp only [runNodes, Option.isSome_map] at hrun
+        simp only [mentions, Bool.or_eq_false_iff] at hm
+        simpa [directDelays] using ih _ _ _ _ hrun hm.2
       | loop id ml ex bd =>
         simp only [mentions, Bool.or_eq_false_iff] at hm
         simp only [directDelays]
@@ -420,6 +425,15 @@ theorem frame (p : Nat) (f d : Nat) (ns : List Node) (env : Env) (b s2 : List In
         simp only [runNodes] at h
         simp only [mentions, Bool.or_eq_false_iff, beq_eq_false_iff_ne] at hm
         rw [ih _ _ _ _ _ h hm.2, aux_get_set_ne _ _ _ _ hm.1]
+      | op q kd st t =>
+        simp only [runNodes] at h
+        simp only [mentions, Bool.or_eq_false_iff, beq_eq_false_iff_ne] at hm
+        cases hr : runNodes k d ns (env.set q ⟨(opStep kd (env.get q).buf b).1, []⟩) (opStep kd (env.get q).buf b).2.1 s2 with
+        | none => simp [hr] at h
+        | some r' =>
+          simp only [hr, Option.map_some, Option.some.injEq] at h
+          have hr1 : r.1 = r'.1 := by rw [← h]
+          rw [hr1, ih _ _ _ _ r' hr hm.2, aux_get_set_ne _ _ _ _ hm.1]
       | loop id ml ex body =>
         simp only [mentions, Bool.or_eq_false_iff] at hm
         rw [loop_node_eq] at h
@@ -502,6 +516,13 @@ theorem runNodes_append (f d : Nat) (pre rest : List Node) (env : Env) (b s2 : L
         exact this.symm
       | defer q l => simp only [List.cons_append, runNodes]; exact ih k _ _
       | cycle q l m => simp only [List.cons_append, runNodes]; exact ih k _ _
+      | op q kd st t =>
+        simp only [List.cons_append, runNodes]
+        rw [ih k _ _]
+        have := aux_andThen_map (runNodes k d ns (env.set q ⟨(opStep kd (env.get q).buf b).1, []⟩) (opStep kd (env.get q).buf b).2.1 s2)
+          (fun e c => runNodes (k - ns.length) d rest e c s2) [(t, (opStep kd (env.get q).buf b).2.2)]
+        simp only [List.singleton_append] at this
+        exact this.symm
       | loop id ml ex body =>
         rw [List.cons_append, loop_node_eq, loop_node_eq]
         split
@@ -526,6 +547,36 @@ theorem aux_swapAll_once (p : Nat) (l : Bool) (A B : List (Nat × Bool)) (env : 
     simp [swapAll, List.foldl_append]
   rw [h1, aux_swapAll_frame p B _ hB, aux_swap_single, aux_swapAll_frame p A _ hA]
 
+/-- **After an iteration and the loop's swap code, what entered a `defer_tick` sits in its `back` buffer and its `buf`
+is empty** — wherever the `defer_tick` stands in the body (the other nodes do not mention its handoff).  For a root-level
+loop this is the state in which the tick's schedule check finds the handoff: the swap already happened inside the
+loop's `if` gate. -/
+theorem deferTick_in_loop_stored_in_back (f d p : Nat) (l : Bool) (pre post : List Node) (env : Env)
+    (b1 s2 : List Int) (r1 : Env × List Int × Outs) (e1 : Env) (c1 : List Int) (o1 : Outs)
+    (h1 : runNodes f d (pre ++ .defer p l :: post) env b1 s2 = some r1)
+    (hpre1 : runNodes f d pre env b1 s2 = some (e1, c1, o1))
+    (hmpre : mentions p f pre = false) (hmpost : mentions p (f - pre.length - 1) post = false) :
+    (swapAll (directDelays (pre ++ .defer p l :: post)) r1.1).get p = ⟨[], c1⟩ := by
+  rw [runNodes_append, hpre1] at h1
+  simp only [andThen] at h1
+  cases hk : f - pre.length with
+  | zero => simp [hk, runNodes] at h1
+  | succ k =>
+    have hk1 : f - pre.length - 1 = k := by omega
+    rw [hk1] at hmpost
+    rw [hk, defer_node_eq] at h1
+    cases hq : runNodes k d post (e1.set p ⟨c1, []⟩) (e1.get p).back s2 with
+    | none => simp [hq] at h1
+    | some q =>
+      simp only [hq, Option.map_some, Option.some.injEq] at h1
+      have hr1 : r1.1 = q.1 := by rw [← h1]
+      have hq1 : q.1.get p = ⟨c1, []⟩ := by
+        rw [frame p k d post _ _ s2 q hq hmpost, aux_get_set_same]
+      have hA := aux_direct_not_mentioned p f d pre env b1 s2 (by rw [hpre1]; rfl) hmpre
+      have hB := aux_direct_not_mentioned p k d post _ _ s2 (by rw [hq]; rfl) hmpost
+      rw [aux_directDelays_append pre post (p, l) (.defer p l) (by simp [directDelays]),
+        aux_swapAll_once p l _ _ _ hA hB, hr1, hq1]
+
 /-- **`defer_tick` inside a loop delays by exactly one iteration — wherever it stands in the body**: for a body
 `pre ++ defer_tick :: post` whose other nodes do not mention the `defer_tick`'s handoff (positions are distinct), with
 the loop's real swap code (`swapAll` over *all* delayed handoffs of the body) between two iterations: if in one
@@ -539,36 +590,20 @@ theorem deferTick_in_loop_one_iteration_general (f d p : Nat) (l : Bool) (pre po
     (hmpre : mentions p f pre = false) (hmpost : mentions p (f - pre.length - 1) post = false) :
     runNodes f d (pre ++ .defer p l :: post) (swapAll (directDelays (pre ++ .defer p l :: post)) r1.1) b2 s2 =
       (runNodes (f - pre.length - 1) d post (e2.set p ⟨c2, []⟩) c1 s2).map fun q => (q.1, q.2.1, o2 ++ q.2.2) := by
-  -- first iteration: what the handoff holds at its end
+  have hswap := deferTick_in_loop_stored_in_back f d p l pre post env b1 s2 r1 e1 c1 o1 h1 hpre1 hmpre hmpost
+  -- second iteration: the prefix does not touch the handoff, the `defer_tick` hands on what the swap put in `back`
   rw [runNodes_append, hpre1] at h1
   simp only [andThen] at h1
   cases hk : f - pre.length with
   | zero => simp [hk, runNodes] at h1
   | succ k =>
-    have hk1 : f - pre.length - 1 = k := by omega
-    rw [hk1] at hmpost
     simp only [Nat.add_sub_cancel]
-    rw [hk, defer_node_eq] at h1
-    cases hq : runNodes k d post (e1.set p ⟨c1, []⟩) (e1.get p).back s2 with
-    | none => simp [hq] at h1
-    | some q =>
-      simp only [hq, Option.map_some, Option.some.injEq] at h1
-      have hr1 : r1.1 = q.1 := by rw [← h1]
-      have hq1 : q.1.get p = ⟨c1, []⟩ := by
-        rw [frame p k d post _ _ s2 q hq hmpost, aux_get_set_same]
-      -- the loop's swap code turns it into the back buffer
-      have hA := aux_direct_not_mentioned p f d pre env b1 s2 (by rw [hpre1]; rfl) hmpre
-      have hB := aux_direct_not_mentioned p k d post _ _ s2 (by rw [hq]; rfl) hmpost
-      have hswap : (swapAll (directDelays (pre ++ .defer p l :: post)) r1.1).get p = ⟨[], c1⟩ := by
-        rw [aux_directDelays_append pre post (p, l) (.defer p l) (by simp [directDelays]),
-          aux_swapAll_once p l _ _ _ hA hB, hr1, hq1]
-      -- second iteration: the prefix does not touch it, the `defer_tick` hands it on
-      rw [runNodes_append, hpre2]
-      simp only [andThen]
-      rw [hk, defer_node_eq]
-      have he2 := frame p f d pre _ _ s2 (e2, c2, o2) hpre2 hmpre
-      simp only at he2
-      rw [he2, hswap]
+    rw [runNodes_append, hpre2]
+    simp only [andThen]
+    rw [hk, defer_node_eq]
+    have he2 := frame p f d pre _ _ s2 (e2, c2, o2) hpre2 hmpre
+    simp only at he2
+    rw [he2, hswap]
 
 /-- a loop body `map(+1) -> tap 0 -> defer_tick -> tap 1` run twice with the loop's swap in between: the second
 iteration's `tap 1` shows what the first iteration's prefix produced -/
